@@ -356,7 +356,9 @@ def check_container(case):
     fm["<func>g"] = lambda *a, **k: 1.5          # generated calls have arbitrary signatures
     interp = make_recorder(dag, fm, on_statement)
     ctx0 = {"x": 2.0, "y": 3.0, "z": -1.0, "<state>r": 0.5, "<p>s": 4.0, "arr": np.array([1.0, 2.0, 3.0]),
-            "out2": np.zeros(2)}
+            "out2": np.zeros(2),
+            # variables named like the functions that are called: functions and variables live in separate name spaces
+            "<func>g": 2.5, "<func>anyf": 1.0}
     interp.set_up(t_start=0.0, dt_start=0.5, context={"r": 0.5})
     for k, v in ctx0.items():
         dict.__setitem__(interp.context, k, v)
